@@ -57,7 +57,7 @@ var vttTagPool = []vttTag{
 	{name: "c", classes: []string{"red"}, ann: "note"},
 	// class lists that are prefixes of one another
 	{name: "c", classes: []string{"red", "big"}}, {name: "b", classes: []string{"x"}}, {name: "b", classes: []string{"x", "y"}},
-	{name: "i", classes: []string{"loud", "red"}},
+	{name: "i", classes: []string{"loud", "red"}}, {name: "c", classes: []string{"red", "loud", "big", "red"}},
 }
 
 var vttVoices = []string{"Bob", "Roger Bingham", "中文", "Mary-Ann", "Dr. Who"}
